@@ -86,12 +86,18 @@ def is_nonlinear(formulas) -> bool:
     return False
 
 
+ACK_STATE = dict(memo={}, appidx={}, apps={}, counter=[0], keep=[])
+
+
+def reset_ack():
+    """Per path: the rewriting memo (and the fresh constants) are shared by all obligations of a path."""
+    ACK_STATE.update(memo={}, appidx={}, apps={}, counter=[0], keep=[])
+
+
 def ackermannize(formulas):
     """Replace uninterpreted applications by fresh constants + congruence axioms."""
-    memo = {}
-    appidx = {}
-    apps = {}  # decl name -> list[(args_rewritten, const)]
-    counter = [0]
+    st = ACK_STATE
+    memo, appidx, apps, counter = st["memo"], st["appidx"], st["apps"], st["counter"]
 
     def rw(t):
         k = t.get_id()
@@ -126,15 +132,31 @@ def ackermannize(formulas):
         return r
 
     out = [rw(f) for f in formulas]
-    ackermannize.last_apps = apps
-    cong = []
+    st["keep"].extend(formulas)  # keep terms alive: ids must stay unique while the memo lives
+    return out, {k: list(v) for k, v in apps.items()}
+
+
+def congruence_violations(model, apps, limit=400):
+    """Pairs of applications with equal argument values but different result values in the model."""
+    out = []
     for lst in apps.values():
-        for i in range(len(lst)):
-            for j in range(i + 1, len(lst)):
-                a1, c1 = lst[i]
-                a2, c2 = lst[j]
-                cong.append(z3.Implies(z3.And(*[x == y for x, y in zip(a1, a2)]), c1 == c2))
-    return out + cong
+        if len(lst) < 2:
+            continue
+        groups = {}
+        for args, c in lst:
+            key = tuple(str(model.eval(a, model_completion=True)) for a in args)
+            groups.setdefault(key, []).append((args, c))
+        for members in groups.values():
+            if len(members) < 2:
+                continue
+            a1, c1 = members[0]
+            v1 = str(model.eval(c1, model_completion=True))
+            for a2, c2 in members[1:]:
+                if str(model.eval(c2, model_completion=True)) != v1:
+                    out.append(z3.Implies(z3.And(*[x == y for x, y in zip(a1, a2)]), c1 == c2))
+                    if len(out) >= limit:
+                        return out
+    return out
 
 
 # ---------------------------------------------------------------- solving
@@ -142,32 +164,45 @@ def ackermannize(formulas):
 
 def _solve(formulas, backend, timeout_ms):
     t0 = time.time()
+    apps = None
     if backend == "z3-default":
         s = z3.Solver()
     elif backend == "z3-nlsat-ack":
-        formulas = ackermannize(formulas)
+        formulas, apps = ackermannize(formulas)
         s = z3.Then("simplify", "purify-arith", "elim-term-ite", "solve-eqs", "qfnra-nlsat").solver()
     elif backend == "z3-smt-ack":
-        formulas = ackermannize(formulas)
+        formulas, apps = ackermannize(formulas)
         s = z3.Solver()
     else:
         raise ValueError(backend)
-    s.set("timeout", int(timeout_ms))
     s.add(*formulas)
-    try:
-        r = s.check()
-    except z3.Z3Exception as e:
-        return "unknown", None, time.time() - t0, str(e)
     reason = ""
-    if r == z3.unknown:
+    # lazy Ackermann reduction: congruence instances are added only where a model violates them
+    for _it in range(60):
+        left = timeout_ms - (time.time() - t0) * 1000
+        if left <= 0:
+            return "unknown", None, time.time() - t0, "timeout"
+        s.set("timeout", int(max(100, left)))
         try:
-            reason = s.reason_unknown()
-        except Exception:
-            reason = "unknown"
-    model = s.model() if r == z3.sat else None
-    if model is not None and backend.endswith("-ack"):
-        model = (model, getattr(ackermannize, "last_apps", {}))
-    return str(r), model, time.time() - t0, reason
+            r = s.check()
+        except z3.Z3Exception as e:
+            return "unknown", None, time.time() - t0, str(e)
+        if r == z3.unknown:
+            try:
+                reason = s.reason_unknown()
+            except Exception:  # noqa: BLE001
+                reason = "unknown"
+            return "unknown", None, time.time() - t0, reason
+        if r == z3.unsat:
+            return "unsat", None, time.time() - t0, ""
+        model = s.model()
+        if apps is None:
+            return "sat", model, time.time() - t0, ""
+        viol = congruence_violations(model, apps)
+        if not viol:
+            return "sat", (model, apps), time.time() - t0, ""
+        s.add(*viol)
+    return "unknown", None, time.time() - t0, "congruence refinement did not converge"
 
 
 def model_to_dict(model):
@@ -225,36 +260,40 @@ def _val(v):
     return str(v)
 
 
-def build_query(ob, axioms, rounds=2):
-    """hyps + axioms + instantiated universal facts + negated goal."""
+def build_query(ob, axioms, rounds=3):
+    """hyps + axioms + universal facts instantiated at the logged applications of their trigger functions."""
     base = [h for h in ob.hyps] + list(axioms)
     goal = ob.goal
-    formulas = base + [z3.Not(goal)]
     insts = []
     seen_inst = set()
     for _ in range(rounds):
-        cur = formulas + insts
-        cands = [(t,) for t in index_terms(cur)]
+        napps = sum(len(v) for v in V.APPS.values())
+        generic = None
         new = []
         for u in ob.univ:
-            more = list(cands) if (u.arity == 1 and u.generic) else []
+            more = []
             if u.decls:
-                names = {d.name() for d in u.decls}
-                seen = {}
-                for f in cur:
-                    subterms(f, seen)
-                for x in seen.values():
-                    if is_uf_app(x) and x.decl().name() in names and x.num_args() == u.arity:
-                        more.append(tuple(x.children()))
+                for d in u.decls:
+                    for args in list(V.APPS.get(d.name(), {}).values()):
+                        if len(args) == u.arity:
+                            more.append(args)
+            if u.arity == 1 and u.generic:
+                if generic is None:
+                    generic = {}
+                    for tab in V.APPS.values():
+                        for args in list(tab.values()):
+                            for a in args:
+                                if z3.is_int(a):
+                                    generic[a.get_id()] = (a,)
+                more.extend(generic.values())
             for f in u.instances(more):
                 k = f.get_id()
                 if k not in seen_inst:
                     seen_inst.add(k)
                     new.append(f)
-        if not new:
-            break
         insts.extend(new)
-    # axioms generated while instantiating (round_, sqrt_) are picked up by the caller passing V.AXIOMS again
+        if not new or sum(len(v) for v in V.APPS.values()) == napps:
+            break
     return base + insts, goal
 
 
@@ -262,20 +301,20 @@ def discharge(ob, axioms, timeout_s=20.0, want_smt2=False) -> Verdict:
     t0 = time.time()
     g0 = z3.simplify(ob.goal)
     if z3.is_true(g0):
-        return Verdict("discharged", "simplifier", time.time() - t0, smt2="(assert false) ; goal simplifies to true" if want_smt2 else "")
+        return Verdict("discharged", "simplifier", time.time() - t0, smt2="(assert false) ; goal simplifies to true" if want_smt2 is True else "")
     # quick attempt: path condition only (no instantiation of universal facts): sound, often enough
     qs = z3.Solver()
-    qs.set("timeout", 400)
+    qs.set("timeout", 250)
     qs.add(*ob.hyps)
     qs.add(*axioms)
     qs.add(z3.Not(ob.goal))
     if qs.check() == z3.unsat:
-        return Verdict("discharged", "z3-default", time.time() - t0, smt2=qs.to_smt2() if want_smt2 else "")
+        return Verdict("discharged", "z3-default", time.time() - t0, smt2=qs.to_smt2() if want_smt2 is True else "")
     hyps, goal = build_query(ob, axioms)
     hyps = hyps + [a for a in V.AXIOMS if all(not a.eq(h) for h in hyps[-0:])] if False else hyps
     formulas = hyps + list(V.AXIOMS) + [z3.Not(goal)]
     smt2 = ""
-    if want_smt2:
+    if want_smt2 is True:
         s = z3.Solver()
         s.add(*formulas)
         smt2 = s.to_smt2()
@@ -291,6 +330,10 @@ def discharge(ob, axioms, timeout_s=20.0, want_smt2=False) -> Verdict:
         if r == "unsat":
             return Verdict("discharged", backend, total, smt2=smt2)
         if r == "sat":
+            if want_smt2 and not smt2:
+                s2 = z3.Solver()
+                s2.add(*formulas)
+                smt2 = s2.to_smt2()
             return Verdict("refuted", backend, total, model=model_to_dict(model), smt2=smt2)
         last_reason = f"{backend}: {reason}"
     return Verdict("undecided", order[-1], total, reason=last_reason, smt2=smt2)
